@@ -41,21 +41,27 @@ def doc(classes=None, apps=None, params=None, extra=None):
 
 
 def enc_files(files):
-    out = ['%d' % len(files)]
+    ents = []
     for path in sorted(files):
         d = files[path]
-        out.append('%d %s' % (len(path), ' '.join('S' + hx(s) for s in path)))
+        head = '%d %s' % (len(path), ' '.join('S' + hx(s) for s in path))
         if d == 'X':
-            out.append('X')
+            ents.append(head + ' X')
         elif isinstance(d, tuple) and d[0] == 'raw':
-            out.append('R' + hx(d[1]))
+            ents.append(head + ' R' + hx(d[1]))
         elif isinstance(d, tuple) and d[0] == 'bytes':
-            out.append('B' + binascii.hexlify(d[1]).decode())
+            ents.append(head + ' B' + binascii.hexlify(d[1]).decode())
         elif isinstance(d, tuple) and d[0] == 'link':
-            out.append('Y' + hx(d[1]))
+            ents.append(head + ' Y' + hx(d[1]))
+        elif isinstance(d, tuple) and d[0] == 'virt':
+            # a file seen through a symlinked directory: on disk already, content for the model only
+            ents.append(head + ' V ' + enc(d[1]))
+        elif isinstance(d, tuple) and d[0] == 'linkfile':
+            # a symlink to a YAML file: the harness creates the link, the model sees the content
+            ents.append(head + ' K' + hx(d[1]) + ' ' + enc(d[2]))
         else:
-            out.append(enc(d))
-    return ' '.join(out)
+            ents.append(head + ' ' + enc(d))
+    return ' '.join(['%d' % len(ents)] + ents)
 
 
 def strs(l):
@@ -75,7 +81,7 @@ def op_node(name):
 
 def show_inv(inv, op=''):
     def f(files):
-        return {'/'.join(p): ('<dir>' if d == 'X' else (repr(d[1]) if isinstance(d, tuple) and d[0] in ('raw', 'link', 'bytes') else show(d)))
+        return {'/'.join(p): ('<dir>' if d == 'X' else (repr(d[1]) if isinstance(d, tuple) and d[0] in ('raw', 'link', 'bytes', 'linkfile') else (show(d[1]) if isinstance(d, tuple) and d[0] == 'virt' else show(d))))
                 for p, d in sorted(files.items())}
     return json.dumps({'classes': f(inv.classes), 'nodes': f(inv.nodes), 'ignore': inv.ignore, 'compose': inv.compose,
                        'literal_dots': inv.dots, 'patterns': inv.patterns, 'op': op}, ensure_ascii=False)
